@@ -297,7 +297,7 @@ func runC19Scraper(r *simkit.Run) {
 	cfg.InitialDelay = delay
 
 	// per-scrape plan, decided by the scheduler before time advances
-	type plan struct{ kind, n, failed int } // kind 0 ok, 1 error, 2 partial
+	type plan struct{ kind, n, failed int } // kind 0 ok, 1 error, 2 partial, 3 partial wrapped in another error
 	plans := make([]plan, nscr)
 	var sinkErr error
 	var offered, accepted, refused int64 // receiver-level ledger
@@ -321,6 +321,8 @@ func runC19Scraper(r *simkit.Run) {
 					return md, errTransient
 				case 2:
 					return md, scrapererror.NewPartialScrapeError(errTransient, p.failed)
+				case 3:
+					return md, fmt.Errorf("scraper s%d: %w", i, scrapererror.NewPartialScrapeError(errTransient, p.failed))
 				}
 				return md, nil
 			})
@@ -347,6 +349,8 @@ func runC19Scraper(r *simkit.Run) {
 						return ld, errTransient
 					case 2:
 						return ld, scrapererror.NewPartialScrapeError(errTransient, p.failed)
+					case 3:
+						return ld, fmt.Errorf("scraper s%d: %w", i, scrapererror.NewPartialScrapeError(errTransient, p.failed))
 					}
 					return ld, nil
 				})
@@ -365,14 +369,14 @@ func runC19Scraper(r *simkit.Run) {
 	draw := func() {
 		var off int64
 		for i := range plans {
-			plans[i] = plan{kind: tp.Weighted(4, 1, 1), n: tp.Draw(5), failed: 1 + tp.Draw(3)}
+			plans[i] = plan{kind: tp.Weighted(4, 1, 1, 1), n: tp.Draw(5), failed: 1 + tp.Draw(3)} // 3: a partial error wrapped by the scraper
 			switch plans[i].kind {
 			case 0:
 				off += int64(plans[i].n)
 				scraped += int64(plans[i].n)
 			case 1:
 				r.Count("fault.scrape_error")
-			case 2:
+			case 2, 3:
 				r.Count("fault.scrape_partial")
 				off += int64(plans[i].n)
 				scraped += int64(plans[i].n)
